@@ -45,7 +45,7 @@ fn collect_span(v: &Value, primary: bool, out: &mut Vec<SpanRef>) {
 }
 
 pub fn target_root() -> String {
-    std::env::var("BBV_TARGET_DIR").unwrap_or_else(|_| "/verif/target".to_string())
+    std::env::var("BBV_TARGET_DIR").unwrap_or_else(|_| format!("{}/target", crate::common::verif()))
 }
 
 /// `cargo <args> --message-format=json --offline` in `dir`.
